@@ -60,15 +60,6 @@ Definition model_agrees (c : case) : bool :=
       list_eqb String.eqb (reorder (deps_of deps) (S (length deps)) names) order
   end.
 
-(* "a database that already matches the model": the reported column is the declared one *)
-Definition matches (f : field) (r : reported) : bool :=
-  cs_eqb (trim (lower (chars (f_full f)))) (lower (chars (r_type r)))
-  && (negb (r_nullable_ok r) || negb (Bool.eqb (r_nullable r) (f_notnull f)))
-  && (let cur := f_hasdef f && (f_defi f || negb (equal_fold (chars (f_default f)) (chars "NULL"))) in
-      Bool.eqb (r_default_ok r) cur && (negb cur || String.eqb (r_default r) (f_default f)))
-  && (negb (r_comment_ok r) || String.eqb (r_comment r) (f_comment f))
-  && (negb (r_unique_ok r) || Bool.eqb (r_unique r) (f_unique f)).
-
 Definition additive (a : api) : bool :=
   match a with AAddColumn _ _ | ACreateIndex _ _ | ACreateConstraint _ _ => true | _ => false end.
 
